@@ -55,6 +55,27 @@ func main() {
 		for _, id := range rules.IDs() {
 			fmt.Printf("%s\t%s\n", id, rules.Get(id).Doc)
 		}
+	case "describe":
+		// machine-readable description of rules and properties, used by tools/mkdesign.py
+		type pd struct {
+			ID          string   `json:"id"`
+			Rules       []string `json:"rules"`
+			Explanation string   `json:"explanation"`
+			Assumptions []string `json:"assumptions"`
+		}
+		out := struct {
+			Rules map[string]string `json:"rules"`
+			Props []pd              `json:"properties"`
+		}{Rules: map[string]string{}}
+		for _, id := range rules.IDs() {
+			out.Rules[id] = rules.Get(id).Doc
+		}
+		for _, id := range rules.PropIDs() {
+			p := rules.GetProp(id)
+			out.Props = append(out.Props, pd{p.ID, p.Rules, p.Explanation, p.Assumptions})
+		}
+		b, _ := json.MarshalIndent(out, "", " ")
+		fmt.Println(string(b))
 	case "manifest":
 		os.Exit(cmdManifest())
 	case "roles":
